@@ -2,6 +2,7 @@ import Rbp.Model.Balances
 import Rbp.Proofs.Utxo
 import Rbp.Proofs.RunSpec
 import Rbp.Props.C10
+import Rbp.Proofs.Conservation
 /-!
 # C08 — balances lists each address once with the sum of its unspent outputs
 -/
@@ -22,6 +23,15 @@ theorem balanceMap_eq (m : HashMap W.Bytes Unspent) : balanceMap m = B.bal ∅ (
 theorem balances_spec (m : HashMap W.Bytes Unspent) (a : String) :
     (balanceMap m)[a]? = if B.occurs a (pairs m) then some (B.sumFor a (pairs m)) else none := by
   rw [balanceMap_eq]; exact B.balances_spec _ a
+
+/-- conservation: the balances of all rows add up to the values of all unspent outputs — aggregation by address neither creates
+    nor loses a satoshi, whatever the number of addresses, outputs per address or iteration order of either map -/
+theorem aggregation_conserves_value (m : HashMap W.Bytes Unspent) :
+    B.total (balanceMap m).toList = B.total (pairs m) := by
+  rw [balanceMap_eq]; exact B.total_bal_empty _
+
+/-- non-vacuity of the helper behind it: three outputs over two addresses -/
+example : B.total [("a", 5), ("b", 7), ("a", 11)] = 23 := by decide
 
 /-- each address once: rows come from the bindings of a map -/
 theorem one_row_per_address (m : HashMap W.Bytes Unspent) :
